@@ -60,19 +60,34 @@ def has_temporal(f):
     return any(g[0] in TEMPORAL for g in subformulas(f))
 
 
-def run_mc(R, logic, cases, label=''):
+def kd_py_aliased(kd):
+    """the same structure, but installed through Kripke.replace_labelling_function with states of equal label set SHARING one
+    set object (a legitimate state of a Kripke object: the method stores the caller's dict as it is)"""
+    K = kd_py(kd)
+    groups, L = {}, {}
+    for s in K.states():
+        key = frozenset(K.labels(s))
+        L[s] = groups.setdefault(key, set(key))
+    K.replace_labelling_function(L)
+    return K
+
+
+def run_mc(R, logic, cases, label='', alias_every=5):
     """cases: list of (kd, f).  Compares implementation and model; on a difference consults the
     reference semantics to say which side violates exactness.  Returns number of mismatches."""
     cmds, meta = [], []
-    for kd, f in cases:
-        K = kd_py(kd)
+    for ci, (kd, f) in enumerate(cases):
+        aliased = alias_every and ci % alias_every == alias_every - 1
+        K = kd_py_aliased(kd) if aliased else kd_py(kd)
+        if aliased:
+            R.count('structures_with_shared_label_set_objects')
         snap0 = kripke_snapshot(K)
         r = impl_mc(logic, K, f)
         cmds.append(model_cmd(logic, K, f))
-        meta.append((kd, f, r, kripke_snapshot(K) == snap0, len(K.states())))
+        meta.append((kd, f, r, kripke_snapshot(K) == snap0, len(K.states()), aliased))
     outs = model_batch_parallel(cmds)
     bad = 0
-    for (kd, f, r, unchanged, n), o in zip(meta, outs):
+    for (kd, f, r, unchanged, n, aliased), o in zip(meta, outs):
         R.evaluations += 1
         m = model_obs(o)
         if tuple(r) != m or not unchanged:
@@ -83,7 +98,7 @@ def run_mc(R, logic, cases, label=''):
                 rr = 'ref-failed: %r' % e
             R.violation('%s.modelcheck differs from the proved model%s' % (logic, '' if unchanged else ' (and modified K)'),
                         {'logic': logic, 'kripke': kd_json(kd), 'formula': f, 'formula_str': fstr(f),
-                         'impl': r, 'model': m, 'reference': rr,
+                         'impl': r, 'model': m, 'reference': rr, 'labels_installed_with_shared_set_objects': bool(aliased),
                          'impl_wrong_by_reference': (r[0] != 'ok' or r[1] != rr)})
             continue
         R.count('agree_' + logic + label)
@@ -97,7 +112,7 @@ def replay_mc(R, data):
     d = data['data']
     kd = kd_from_json(d['kripke'])
     f = detuple(d['formula'])
-    K = kd_py(kd)
+    K = kd_py_aliased(kd) if d.get('labels_installed_with_shared_set_objects') else kd_py(kd)
     r = impl_mc(d['logic'], K, f)
     m = model_obs(model_batch([model_cmd(d['logic'], K, f)])[0])
     rr = sorted(ref_check(kd, f))
